@@ -455,8 +455,8 @@ Proof.
   intros H. destruct (sel i) as [st|] eqn:Es.
   - exists st. destruct (st_action st) eqn:Ea.
     1,2: assert (Hn : st_action st <> SkipLevel) by congruence;
-         rewrite (model_auth i st Es Hn) in H; inversion H; auto.
-    unfold sel in Es. unfold model in H. Show. rewrite Es, Ea in H. discriminate.
+         rewrite (model_auth i st Es Hn) in H; inversion H; repeat split; congruence.
+    unfold sel in Es. unfold model in H. rewrite Es, Ea in H. discriminate.
   - unfold sel in Es. unfold model in H. rewrite Es in H. discriminate.
 Qed.
 
@@ -556,4 +556,253 @@ Lemma valid_store_sep s : valid_store s = true -> has_sep s = true.
 Proof.
   unfold valid_store, has_sep. destruct (cut_byte colon s) eqn:E; [|discriminate]. intros _.
   destruct (contains_byte colon s) eqn:C; [reflexivity|]. apply cut_none in C. congruence.
+Qed.
+
+(* ================= the theorems of props/C03_Property.v ================= *)
+
+(* soundness: a pass has a witness in a listed store of the scheme's type *)
+Theorem sound : forall i, o_auth (model i) = Some APass ->
+  exists st ty name l c,
+    select (i_policy i) (i_repo i) = Some st /\ store_type_of (i_scheme i) = Some ty /\
+    In (store_value ty name) (st_stores st) /\ fs_get (i_fs i) ty name = Certs l /\
+    In c l /\ In c (i_chain i).
+Proof.
+  intros i H. destruct (model_auth_inv i _ H) as (st & Hs & _ & Hc).
+  symmetry in Hc. destruct (auth_stage_pass _ _ _ _ Hc) as (ty & name & l & c & R).
+  exists st, ty, name, l, c. split; [exact Hs | exact R].
+Qed.
+
+(* what sits elsewhere never confers trust *)
+Theorem never_from_elsewhere : forall i st ty,
+  select (i_policy i) (i_repo i) = Some st -> store_type_of (i_scheme i) = Some ty ->
+  (forall name l c, In (store_value ty name) (st_stores st) -> fs_get (i_fs i) ty name = Certs l ->
+                    In c l -> ~ In c (i_chain i)) ->
+  o_auth (model i) <> Some APass.
+Proof.
+  intros i st ty Hs Hty Hno H. destruct (sound i H) as (st' & ty' & name & l & c & Hs' & Hty' & Hin & Hfs & Hcl & Hcc).
+  rewrite Hs in Hs'. inversion Hs'; subst st'. rewrite Hty in Hty'. inversion Hty'; subst ty'.
+  exact (Hno name l c Hin Hfs Hcl Hcc).
+Qed.
+
+(* the authenticity result and its calls read the trust store only at listed stores of the type *)
+Theorem fs_noninterference : forall i fs' st ty,
+  select (i_policy i) (i_repo i) = Some st -> store_type_of (i_scheme i) = Some ty ->
+  (forall name, In (store_value ty name) (st_stores st) -> fs_get (i_fs i) ty name = fs_get fs' ty name) ->
+  o_auth (model (with_fs i fs')) = o_auth (model i) /\ o_stop (model (with_fs i fs')) = o_stop (model i).
+Proof.
+  intros i fs' st ty Hs Hty Hag.
+  assert (Hs' : sel (with_fs i fs') = Some st) by exact Hs.
+  assert (E : auth_of (with_fs i fs') st = auth_of i st).
+  { unfold auth_of, auth_stage. cbn [with_fs i_scheme i_fs i_chain]. rewrite Hty.
+    rewrite (load_ext fs' (i_fs i) ty (st_stores st) []); [reflexivity|].
+    intros s name Hin Hcut. symmetry. apply Hag. now rewrite <- (cut_store_value _ _ _ Hcut). }
+  destruct (st_action st) eqn:Ea.
+  1,2: assert (Hn : st_action st <> SkipLevel) by congruence;
+       rewrite (model_auth _ st Hs' Hn), (model_auth i st Hs Hn), (model_stop _ st Hs' Hn), (model_stop i st Hs Hn), E;
+       split; reflexivity.
+  unfold model. cbn [with_fs i_policy i_repo]. rewrite Hs, Ea. split; reflexivity.
+Qed.
+
+(* only the selected statement matters *)
+Theorem other_statements : forall i p',
+  select p' (i_repo i) = select (i_policy i) (i_repo i) -> model (with_policy i p') = model i.
+Proof. intros i p' H. unfold model. cbn [with_policy i_policy i_repo i_scheme i_fs i_chain i_token]. now rewrite H. Qed.
+
+(* completeness: with every listed store of the type loading, a witness gives a pass *)
+Theorem complete : forall i st ty name l c,
+  select (i_policy i) (i_repo i) = Some st -> st_action st <> SkipLevel ->
+  store_type_of (i_scheme i) = Some ty ->
+  (forall s, In s (st_stores st) -> contains_byte colon s = true) ->
+  (forall n, In (store_value ty n) (st_stores st) -> fs_get (i_fs i) ty n <> LoadError) ->
+  In (store_value ty name) (st_stores st) -> fs_get (i_fs i) ty name = Certs l ->
+  In c l -> In c (i_chain i) ->
+  o_auth (model i) = Some APass.
+Proof.
+  intros i st ty name l c Hs Ha Hty Hsep Hload Hin Hfs Hcl Hcc.
+  rewrite (model_auth i st Hs Ha), (auth_stage_char i st ty Hty (has_sep_forallb _ Hsep)). cbn [fst].
+  pose proof (store_type_no_colon _ _ Hty) as Hnc.
+  unfold expected_auth.
+  destruct (find _ (uniq (names_of_type ty (st_stores st)))) as [n|] eqn:Ef.
+  { apply find_some in Ef. destruct Ef as [Hn Hbad]. apply uniq_In, (names_In_value _ _ _ Hnc) in Hn.
+    specialize (Hload n Hn). unfold loads_ok in Hbad. destruct (fs_get (i_fs i) ty n); [discriminate | congruence]. }
+  assert (Hname : In name (uniq (names_of_type ty (st_stores st)))) by (apply uniq_In, (names_In_value _ _ _ Hnc); exact Hin).
+  assert (Hc : certs_of (i_fs i) ty name = l) by (unfold certs_of; now rewrite Hfs).
+  destruct (flat_map _ _) eqn:Efm.
+  { assert (Hx : In c (flat_map (certs_of (i_fs i) ty) (uniq (names_of_type ty (st_stores st))))).
+    { apply in_flat_map. exists name. split; [exact Hname | now rewrite Hc]. }
+    rewrite Efm in Hx. contradiction. }
+  replace (existsb _ _) with true; [reflexivity|]. symmetry. apply existsb_exists.
+  exists name. split; [exact Hname|]. apply existsb_exists. exists c. split; [exact Hcc|].
+  apply mem_cert_In. now rewrite Hc.
+Qed.
+
+(* the calls, exactly *)
+Theorem calls_exact : forall i st ty,
+  select (i_policy i) (i_repo i) = Some st -> st_action st <> SkipLevel ->
+  store_type_of (i_scheme i) = Some ty ->
+  (forall s, In s (st_stores st) -> contains_byte colon s = true) ->
+  o_calls (model i) =
+  (expected_calls (i_fs i) ty (st_stores st) ++
+   (if negb (o_stop (model i)) && is_x509 (i_scheme i) && i_token i && st_ts st
+    then expected_calls (i_fs i) ty_tsa (st_stores st) else []))%list.
+Proof.
+  intros i st ty Hs Ha Hty Hsep. apply has_sep_forallb in Hsep.
+  rewrite (model_calls i st Hs Ha), (auth_stage_char i st ty Hty Hsep). cbn [snd]. f_equal.
+  rewrite (tsa_calls_char _ _ _ _ Hsep).
+  destruct (o_stop (model i)); cbn [negb andb]; [reflexivity|]. now rewrite andb_assoc.
+Qed.
+
+Lemma upto_err_incl fs ty : forall l x, In x (upto_err fs ty l) -> In x l.
+Proof.
+  induction l as [|a l IH]; cbn; [tauto|]. intros x. destruct (loads_ok fs ty a).
+  - intros [H|H]; [now left | right; now apply IH].
+  - intros [H|[]]. now left.
+Qed.
+
+Lemma upto_err_prefix fs ty : forall l, exists k, upto_err fs ty l = firstn k l.
+Proof.
+  induction l as [|a l [k IH]]; [exists 0; reflexivity|]. cbn. destruct (loads_ok fs ty a).
+  - exists (S k). cbn. now rewrite IH.
+  - exists 1. reflexivity.
+Qed.
+
+Lemma uniq_NoDup l : NoDup (uniq l).
+Proof.
+  induction l as [|a l IH]; cbn; [constructor|]. constructor.
+  - rewrite filter_In. intros [_ H]. now rewrite String.eqb_refl in H.
+  - now apply NoDup_filter.
+Qed.
+
+(* every call, whatever the list: a listed store, of the scheme's type or - on the timestamp path - tsa *)
+Theorem calls_only_listed : forall i t n, In (t, n) (o_calls (model i)) ->
+  exists st, select (i_policy i) (i_repo i) = Some st /\ In (store_value t n) (st_stores st) /\
+    (store_type_of (i_scheme i) = Some t \/
+     (t = ty_tsa /\ i_scheme i = SX509 /\ i_token i = true /\ st_ts st = true /\ o_stop (model i) = false)).
+Proof.
+  intros i t n H. destruct (sel i) as [st|] eqn:Es.
+  2:{ unfold sel in Es. unfold model in H. rewrite Es in H. contradiction. }
+  destruct (st_action st) eqn:Ea.
+  3:{ unfold sel in Es. unfold model in H. rewrite Es, Ea in H. contradiction. }
+  1,2: assert (Hn : st_action st <> SkipLevel) by congruence; exists st; split; [exact Es|];
+       rewrite (model_calls i st Es Hn) in H; apply in_app_or in H; destruct H as [H|H].
+  1,3: unfold auth_of, auth_stage in H; destruct (store_type_of (i_scheme i)) as [ty|]; [|contradiction];
+       cbn [snd] in H; apply load_calls_listed in H; destruct H as (-> & s & Hin & Hcut);
+       rewrite <- (cut_store_value _ _ _ Hcut); auto.
+  1,2: destruct (o_stop (model i)) eqn:Est; [contradiction|];
+       unfold tsa_calls in H; destruct (i_scheme i) eqn:Esch; try contradiction;
+       destruct (tsa_in_policy (st_stores st)) as [[|]|]; try contradiction;
+       destruct (i_token i); [|contradiction]; destruct (st_ts st); [|contradiction];
+       cbn [andb] in H; apply load_calls_listed in H; destruct H as (-> & s & Hin & Hcut);
+       rewrite <- (cut_store_value _ _ _ Hcut); split; [exact Hin | right; repeat split; reflexivity].
+Qed.
+
+(* a listed store of the type that cannot be loaded: authenticity fails, with that answer *)
+Theorem load_error : forall i st ty name,
+  select (i_policy i) (i_repo i) = Some st -> st_action st <> SkipLevel ->
+  store_type_of (i_scheme i) = Some ty ->
+  (forall s, In s (st_stores st) -> contains_byte colon s = true) ->
+  In (store_value ty name) (st_stores st) -> fs_get (i_fs i) ty name = LoadError ->
+  exists n, o_auth (model i) = Some (ALoad ty n) /\ In (store_value ty n) (st_stores st) /\
+            fs_get (i_fs i) ty n = LoadError.
+Proof.
+  intros i st ty name Hs Ha Hty Hsep Hin Hfs.
+  rewrite (model_auth i st Hs Ha), (auth_stage_char i st ty Hty (has_sep_forallb _ Hsep)). cbn [fst].
+  pose proof (store_type_no_colon _ _ Hty) as Hnc. unfold expected_auth.
+  destruct (find _ (uniq (names_of_type ty (st_stores st)))) as [n|] eqn:Ef.
+  - exists n. apply find_some in Ef. destruct Ef as [Hn Hbad]. apply uniq_In, (names_In_value _ _ _ Hnc) in Hn.
+    repeat split; auto. unfold loads_ok in Hbad. now destruct (fs_get (i_fs i) ty n).
+  - exfalso. assert (Hname : In name (uniq (names_of_type ty (st_stores st)))) by (apply uniq_In, (names_In_value _ _ _ Hnc); exact Hin).
+    pose proof (find_none _ _ Ef name Hname) as Hx. cbv beta in Hx. unfold loads_ok in Hx. now rewrite Hfs in Hx.
+Qed.
+
+(* ... and is never ignored, whatever else the list contains *)
+Theorem load_error_never_passes : forall i st ty name,
+  select (i_policy i) (i_repo i) = Some st -> store_type_of (i_scheme i) = Some ty ->
+  In (store_value ty name) (st_stores st) -> fs_get (i_fs i) ty name = LoadError ->
+  o_auth (model i) <> Some APass.
+Proof.
+  intros i st ty name Hs Hty Hin Hfs H. destruct (model_auth_inv i _ H) as (st' & Hs' & _ & Hc).
+  unfold sel in Hs'. rewrite Hs in Hs'. inversion Hs'; subst st'.
+  unfold auth_of, auth_stage in Hc. rewrite Hty in Hc. cbn [fst] in Hc.
+  pose proof (load_error_never_ok (i_fs i) ty (store_value ty name) name
+                (listed_cut ty name (store_type_no_colon _ _ Hty)) Hfs (st_stores st) [] Hin (fun x => x)) as Hno.
+  destruct (fst (load (i_fs i) ty (st_stores st) [])) as [cs| |]; try discriminate. now apply (Hno cs).
+Qed.
+
+(* scheme -> store type; an unrecognized scheme fails without consulting any store *)
+Theorem scheme_type : store_type_of SX509 = Some ty_ca /\ store_type_of SSA = Some ty_sa /\
+  forall i st, i_scheme i = SOther -> select (i_policy i) (i_repo i) = Some st -> st_action st <> SkipLevel ->
+    o_auth (model i) = Some AScheme /\ o_calls (model i) = [].
+Proof.
+  repeat split; intros.
+  - rewrite (model_auth i st H0 H1). unfold auth_of, auth_stage. now rewrite H.
+  - rewrite (model_calls i st H0 H1). unfold auth_of, auth_stage, tsa_calls. rewrite H. cbn.
+    now destruct (o_stop (model i)).
+Qed.
+
+(* nothing loaded at all is a failure *)
+Theorem empty_fails : forall i st ty,
+  select (i_policy i) (i_repo i) = Some st -> st_action st <> SkipLevel ->
+  store_type_of (i_scheme i) = Some ty ->
+  (forall s, In s (st_stores st) -> contains_byte colon s = true) ->
+  (forall name, ~ In (store_value ty name) (st_stores st)) ->
+  o_auth (model i) = Some AEmpty /\ o_calls (model i) =
+     (if negb (o_stop (model i)) && is_x509 (i_scheme i) && i_token i && st_ts st
+      then expected_calls (i_fs i) ty_tsa (st_stores st) else []).
+Proof.
+  intros i st ty Hs Ha Hty Hsep Hnone.
+  assert (Hn : names_of_type ty (st_stores st) = []).
+  { destruct (names_of_type ty (st_stores st)) as [|n r] eqn:E; [reflexivity|]. exfalso.
+    apply (Hnone n). apply (names_In_value _ _ _ (store_type_no_colon _ _ Hty)). rewrite E. now left. }
+  split.
+  - rewrite (model_auth i st Hs Ha), (auth_stage_char i st ty Hty (has_sep_forallb _ Hsep)). cbn [fst].
+    unfold expected_auth. now rewrite Hn.
+  - rewrite (calls_exact i st ty Hs Ha Hty Hsep). unfold expected_calls at 1. now rewrite Hn.
+Qed.
+
+(* the authenticity error itself ends the verification exactly when the action is enforce *)
+Theorem stop_iff : forall i, o_stop (model i) = true <->
+  exists st c, select (i_policy i) (i_repo i) = Some st /\ st_action st = Enforce /\
+               o_auth (model i) = Some c /\ c <> APass.
+Proof.
+  intros i. split.
+  - intros H. destruct (sel i) as [st|] eqn:Es.
+    2:{ unfold sel in Es. unfold model in H. rewrite Es in H. discriminate. }
+    destruct (st_action st) eqn:Ea.
+    3:{ unfold sel in Es. unfold model in H. rewrite Es, Ea in H. discriminate. }
+    1,2: assert (Hn : st_action st <> SkipLevel) by congruence;
+         rewrite (model_stop i st Es Hn), Ea in H; cbn [andb] in H; try discriminate.
+    exists st, (fst (auth_of i st)). repeat split; auto.
+    + now apply model_auth.
+    + intros E. rewrite E in H. discriminate.
+  - intros (st & c & Hs & Ha & Hc & Hne).
+    assert (Hn : st_action st <> SkipLevel) by congruence.
+    rewrite (model_stop i st Hs Hn), Ha. rewrite (model_auth i st Hs Hn) in Hc. inversion Hc; subst.
+    destruct (fst (auth_of i st)); cbn; congruence.
+Qed.
+
+(* the oracle evaluated on the implementation's observations is met by the model *)
+Theorem model_spec_ok : forall i, wf i = true -> spec_ok i (model i) = true.
+Proof.
+  intros i Hwf. unfold wf in Hwf. apply andb_true_iff in Hwf. destruct Hwf as [Hwf Hsch].
+  apply andb_true_iff in Hwf. destruct Hwf as [Hval Hnd].
+  unfold spec_ok. rewrite <- (select_applicable _ (i_repo i) Hnd).
+  destruct (select (i_policy i) (i_repo i)) as [st|] eqn:Es.
+  2:{ unfold model. now rewrite Es. }
+  destruct (selected_in_scope _ _ _ Es) as [Hin _].
+  assert (Hsep : forallb has_sep (st_stores st) = true).
+  { rewrite forallb_forall in Hval. specialize (Hval st Hin). rewrite forallb_forall in Hval.
+    apply forallb_forall. intros s Hs. apply valid_store_sep, Hval, Hs. }
+  assert (Hsep' : forall s, In s (st_stores st) -> contains_byte colon s = true)
+    by (rewrite forallb_forall in Hsep; exact Hsep).
+  destruct (store_type_of (i_scheme i)) as [ty|] eqn:Hty.
+  2:{ destruct (i_scheme i); cbn in Hty, Hsch; discriminate. }
+  destruct (st_action st) eqn:Ea.
+  3:{ unfold model. now rewrite Es, Ea. }
+  1,2: assert (Hn : st_action st <> SkipLevel) by congruence;
+       rewrite (model_auth i st Es Hn), (calls_exact i st ty Es Hn Hty Hsep'), (model_stop i st Es Hn), Ea;
+       rewrite (auth_stage_char i st ty Hty Hsep); cbn [fst];
+       rewrite aclass_eqb_refl, eqb_reflx; cbn [andb];
+       destruct (i_scheme i); cbn [is_x509 andb] in *; try discriminate; rewrite ?andb_false_r; cbn [andb];
+       apply calls_eqb_refl.
 Qed.
